@@ -52,7 +52,7 @@ func (eng *Engine) newExec(fn *ssa.Function, fc *FuncContract, props []string) *
 		mode = fc.Mode
 	}
 	e := &Exec{eng: eng, fn: fn, fc: fc, mode: mode, sc: newScript(mode), initMem: map[string]string{}, memSort: map[string]string{},
-		params: map[string]Val{}, oblNames: map[string]int{}, libUsed: map[string]bool{}, propsDef: props, ghostTypes: map[string]types.Type{}}
+		params: map[string]Val{}, oblNames: map[string]int{}, libUsed: map[string]bool{}, propsDef: props, ghostTypes: map[string]types.Type{}, rawGhost: map[string]bool{}}
 	return e
 }
 
@@ -890,14 +890,26 @@ func (e *Exec) cutLoopHead(fn *ssa.Function, fc *FuncContract, l *loopInfo, st *
 	}
 	if fc != nil && len(fc.Lists["count_calls"]) > 0 {
 		for name, t := range e.ghostTypes {
-			if strings.HasSuffix(name, "_calls") {
+			if strings.HasSuffix(name, "_calls") && !e.rawGhost[name] {
 				keys["ghost|"+name] = e.sc.sortOf(t)
+			}
+		}
+	}
+	for b := range l.body {
+		for _, ins := range b.Instrs {
+			if _, ok := ins.(*ssa.Send); ok && e.curFn == e.fn {
+				e.sendCount(st)
+				el := ins.(*ssa.Send).Chan.Type().Underlying().(*types.Chan).Elem()
+				e.sendVals(st, el)
+				keys["ghost|send_count"] = e.memSort["ghost|send_count"]
+				k := "ghost|send_val_" + sortTag(e.sc.sortOf(el))
+				keys[k] = e.memSort[k]
 			}
 		}
 	}
 	if e.tm() != nil && e.loopHasAtomics(l) {
 		for name, t := range e.ghostTypes {
-			if strings.HasPrefix(name, "measure") {
+			if strings.HasPrefix(name, "measure") || e.rawGhost[name] {
 				continue
 			}
 			keys["ghost|"+name] = e.sc.sortOf(t)
@@ -963,6 +975,9 @@ func (e *Exec) cutLoopHead(fn *ssa.Function, fc *FuncContract, l *loopInfo, st *
 	e.havocKeysSorted(st, keys, all)
 	// call counters are non-negative and bounded (assumption: fewer than 2^40 calls per invocation)
 	for name, t := range e.ghostTypes {
+		if e.rawGhost[name] {
+			continue
+		}
 		if strings.HasSuffix(name, "_calls") || strings.HasSuffix(name, "_count") {
 			if _, hv := keys["ghost|"+name]; hv {
 				g := e.ghostGet(st, name, t, e.sc.zero(t))
